@@ -134,7 +134,9 @@ def _job(job):
     D = ad.get("D", 2)
     doc, _e, _r = build_doc(ad, D, cat)
     times = job["times"]
-    obs = [observe_styles(doc, t, D, job.get("focus") or (), ad.get("t0", 0)) for t in times]
+    from .core import AltContext, alt_for
+    with AltContext(alt_for(("styles", rid))):
+      obs = [observe_styles(doc, t, D, job.get("focus") or (), ad.get("t0", 0)) for t in times]
     rec = {"id": rid, "doc": {k: sdoc[k] for k in SDOC_FIELDS}, "times": times, "obs": obs, "focus": job.get("focus", [])}
     if job.get("edit") is None or job.get("cat") != "stylecat":
       return rec
